@@ -61,6 +61,7 @@ impl AOracle for Oracle {
         let triple: Triple = (g.measurement.clone(), g.epoch.clone(), g.threshold);
         // what this client derived, observed through the public API only
         let mg = MessageGenerator::new(crate::worlds::a::make_measurement(&g.measurement), g.threshold, &g.epoch);
+        let mut answered_wrong_length: Option<Vec<u8>> = None;
         if ctx.ch.chance(1, 8) {
             // API misuse right before the valid request: an output buffer of the wrong length. The documented
             // reaction is a panic; the caller survives it (catch_unwind) and asks again properly. Whatever the
@@ -73,14 +74,34 @@ impl AOracle for Oracle {
                 let mut r = [0u8; 32];
                 decoy.sample_local_randomness(&mut r);
             }
+            for b in wrong.iter_mut() {
+                *b = 0xa5; // (so that "left untouched" is visible)
+            }
             let refused = crate::runner::guarded(|| mg.sample_local_randomness(&mut wrong)).is_err();
             ctx.stats.fault("wrong_length_randomness_buffer");
             if refused {
                 ctx.stats.probe("wrong_length_buffer_refused_then_valid_request");
+            } else {
+                answered_wrong_length = Some(wrong);
             }
         }
         let mut rnd = [0u8; 32];
         mg.sample_local_randomness(&mut rnd);
+        // A wrong-length request that is ANSWERED instead of refused hands the caller something it will use as
+        // this triple's randomness. That is only compatible with "a function of exactly the triple" if it
+        // agrees with the triple's randomness on the common prefix (a truncating or over-filling variant);
+        // zeros, an untouched buffer or anything else are a second, different value for the same triple.
+        if let Some(w) = answered_wrong_length {
+            let n = w.len().min(32);
+            if n > 0 && w[..n] != rnd[..n] {
+                return Err(Violation::new(
+                    "c04.not_function",
+                    "wrong_length_request_answered",
+                    format!("client {}: a request with a {}-byte buffer was answered rather than refused, with {} - not the randomness of {} ({})", c.idx, w.len(), hex_short(&w[..n]), show(&triple), hex_short(&rnd[..n])),
+                ));
+            }
+            ctx.stats.probe("wrong_length_request_answered_consistently");
+        }
         let mat = ctx.os.with_node(c.node as u64, || mg.share_with_local_randomness()).map_err(|e| Violation::new("c04.generate", "generate", e.to_string()))?;
         let pr = layout::parse_report(&s.bytes).ok_or_else(|| Violation::new("c04.layout", "layout", "report does not parse"))?;
         if pr.tag != mat.tag {
@@ -158,6 +179,7 @@ impl Property for C04 {
     fn run(&self, ctx: &mut Ctx) -> Result<(), Violation> {
         let mut gen = GenCfg::standard(ctx.thorough);
         gen.confusable = ctx.ch.chance(4, 5);
+        gen.entropy_failure = 40;
         gen.max_groups = 8;
         gen.max_clients_total = 40;
         gen.thresholds = vec![1, 2, 2, 3, 3, 4, 5, 8, 16];
